@@ -1,11 +1,16 @@
 #!/bin/bash
-# trymutant.sh <patch-file> <property> [extra check args]: apply a seeded change to /repo, run the property's
-# check, undo the change. Prints the check's tail and exit code. Never leaves /repo modified.
+# trymutant.sh <patch-file> <property> [extra check args]: run a property's check against /repo + a seeded
+# change. The change is applied to a scratch worktree of /repo (never to /repo itself), the check builds from
+# it (VERIF_REPO) and writes its evidence/replays to a scratch directory (VERIF_OUT), and the worktree is
+# removed afterwards.
 set -u
-PATCH="$1"; PROP="$2"; shift 2
-cd /repo || exit 2
-if [ -n "$(git status --porcelain)" ]; then echo "trymutant: /repo is not clean"; exit 2; fi
-git apply "$PATCH" || { echo "trymutant: patch does not apply"; exit 2; }
-trap 'git -C /repo checkout -- . ' EXIT
-cd /verif && ./check "$PROP" "$@" 2>&1 | grep -v "^check: built" | cut -c1-500 | tail -6
+PATCH="$(readlink -f "$1")"; PROP="$2"; shift 2
+WT=$(mktemp -d /var/tmp/mutwt-XXXX); OUTD=$(mktemp -d /var/tmp/mutout-XXXX)
+rmdir "$WT"
+git -C /repo worktree add -q --detach "$WT" HEAD || exit 2
+cleanup() { git -C /repo worktree remove --force "$WT" 2>/dev/null; rm -rf "$WT"; [ -n "${KEEP_OUT:-}" ] || rm -rf "$OUTD"; }
+trap cleanup EXIT
+git -C "$WT" apply "$PATCH" || { echo "trymutant: patch does not apply"; exit 2; }
+cd /verif && VERIF_REPO="$WT" VERIF_OUT="$OUTD" ./check "$PROP" "$@" 2>&1 | grep -v "^check: built" | cut -c1-500 | tail -${TAIL:-6}
 echo "exit=${PIPESTATUS[0]}"
+[ -n "${KEEP_OUT:-}" ] && echo "out=$OUTD"
